@@ -92,7 +92,7 @@ seed_t = [seeded(4, cfg="full-rel", max_seconds=BIG), seeded(3), seeded(3, cfg="
           seeded(2, cfg="full-rel", c=1, action_menu="1,3,4", max_seconds=MID)]
 
 # ---- C01 no premature reclamation ---------------------------------------------------------------------------
-plan("C01", Q, core_q + seed_q + [fin_q(FIN_RESURRECT), R("full-dbg", "weakfin", 2, 3, depth=10)] + auto_q + cleaner_q)
+plan("C01", Q, core_q + seed_q + [fin_q(FIN_RESURRECT), R("full-rel", "fin", 3, 3, depth=9, fin_menu="0,1,8,12"), R("full-dbg", "weakfin", 2, 3, depth=10)] + auto_q + cleaner_q)
 plan("C01", T, core_t + seed_t + [fin_t(FIN_RESURRECT), fin_t(FIN_ALL, depth=11), fin_t(FIN_RESURRECT, depth=11, n=3)] + weak_t + auto_t + cleaner_t)
 
 # ---- C02 completeness -----------------------------------------------------------------------------------------
@@ -128,6 +128,7 @@ plan("C06", Q, [
     R("full-dbg", "weakfin", 2, 3, depth=10, fin_menu="0,6,13", drop_menu="0"),
     R("full-dbg", "weakfin", 2, 3, depth=9, fin_menu="0,1,6", drop_menu="0"),
     R("full-dbg", "fin", 3, 3, depth=10, fin_menu="0,1,3,7,8"),
+    R("full-rel", "fin", 3, 3, depth=9, fin_menu="0,1,8,12"),      # partial resurrection while another finalizer buffers / releases (no debug assertions)
 ] + seed_q[:1])
 plan("C06", T, [
     fin_t(FIN_RESURRECT, depth=19), R("full-dbg", "fin", 2, 2, fin_menu=FIN_RESURRECT), fin_t(FIN_ALL, depth=11),
